@@ -3,6 +3,7 @@ package props
 import (
 	"context"
 	"fmt"
+	"google.golang.org/grpc/metadata"
 	"math"
 	"strconv"
 	"strings"
@@ -57,6 +58,10 @@ func c08CheckLegal(fam, s string) {
 
 func c08(tier string) []*explore.Scenario {
 	var out []*explore.Scenario
+	for _, raw := range []string{"2562047H", "2562048H", "99999999H", "9223372036855m"} {
+		out = append(out, c08ConcurrentRaw(2, raw, 1))
+	}
+	out = append(out, c08ConcurrentRaw(8, "2562048H", 0))
 	maxFull := 5
 	if tier == "thorough" {
 		maxFull = 7
@@ -692,6 +697,47 @@ func c08Concurrent(k int, withStream bool, timeout time.Duration, bound int) *ex
 					vsched.Fail(fam+"|deadline-lost", "%d calls with the same timeout (%v) started at once: the handler of %s has no deadline", len(rs), timeout, r.Tag)
 				} else if dl.Before(callerDl.Add(-time.Millisecond)) || dl.After(callerDl) {
 					vsched.Fail(fam+"|deadline-wrong", "%d calls with the same timeout started at once: the handler of %s has its deadline %v off the caller's", len(rs), r.Tag, dl.Sub(callerDl))
+				}
+			}
+		},
+	}
+}
+
+// c08ConcurrentRaw: k calls started at once whose timeout is given as a raw grpc-timeout entry of
+// the outgoing metadata - the largest representable value, the smallest that does not fit, far
+// beyond: every handler has a deadline, not earlier than the largest representable one allows.
+func c08ConcurrentRaw(k int, raw string, bound int) *explore.Scenario {
+	fam := "C08/concurrent-raw"
+	return &explore.Scenario{
+		Name: fmt.Sprintf("C08/concurrent-raw/k=%d/timeout=%s", k, raw), Family: fam, Prop: "C08", Bound: bound, Horizon: time.Nanosecond,
+		Run: func() {
+			w := env.NewWorld()
+			d := env.NewDirect(w, env.DirectOpts{Pipe: env.PipeOpts{Cap: 64}})
+			vsched.Settle()
+			vsched.Explore(true)
+			start := time.Now()
+			ctx := metadata.AppendToOutgoingContext(context.Background(), "grpc-timeout", raw)
+			var rs []*env.Rec
+			for i := 0; i < k; i++ {
+				r := w.Rec(fmt.Sprintf("u%d", i), "Unary")
+				rs = append(rs, r)
+				vsched.GoNamed("caller-"+r.Tag, func() { w.CallUnary(d.CC, ctx, r, "x") })
+			}
+			r := w.Rec("s", "Bidi")
+			rs = append(rs, r)
+			w.Handlers["s"] = func(r *env.Rec, ss grpc.ServerStream) error { return nil }
+			vsched.GoNamed("caller-s", func() { w.Open(d.CC, ctx, r) })
+			vsched.Quiesce()
+			for _, r := range rs {
+				if r.HStarts != 1 {
+					vsched.Fail(fam+"|handler-not-run", "call %s (grpc-timeout %s): handler ran %d times (err %v)", r.Tag, raw, r.HStarts, r.CErr)
+					continue
+				}
+				dl, has := r.HCtx.Deadline()
+				if !has {
+					vsched.Fail(fam+"|deadline-lost", "%d calls with grpc-timeout %s started at once: the handler of %s has no deadline", len(rs), raw, r.Tag)
+				} else if dl.Sub(start) < 2562047*time.Hour-time.Minute {
+					vsched.Fail(fam+"|deadline-wrong", "%d calls with grpc-timeout %s started at once: the handler of %s has its deadline only %v away", len(rs), raw, r.Tag, dl.Sub(start))
 				}
 			}
 		},
